@@ -5,7 +5,10 @@
 // E1 deviation-bounded exploration: configuration lattice (along-step variant x slots x track
 // order x cross-section level x geometry) x primary lattice (particle x energy x position x
 // direction) x ALL interaction-outcome sequences with at most B deviations from the default
-// "absorb, deposit everything" (harness/loop_explore.hh).
+// "absorb, deposit everything" (harness/loop_explore.hh).  Extra roots appended below: boundary
+// arrival around the tracking cut, e+ at rest at birth (E = 0), primaries exactly at the table
+// ends (1e-3 / 1e4 MeV), starved-stack at-rest deferral; non-zero primary times on the dyadic,
+// table-end, at-rest and two-primary roots.
 #include "corecel/sys/VerifHooks.hh"
 #include "harness/loop_explore.hh"
 
@@ -52,6 +55,23 @@ int main(int argc, char** argv)
     for (int k = 1; k < 3; ++k)
         for (double e : {0.13, 0.15})
             prims.push_back({k, e, {1.4375, 0.125, 0.0}, {1, 0, 0}, fmt("k%d.eb%g.q2.a0", k, e)});
+    // A primary that is AT REST at birth (E = 0 e+; only the 2 m c^2 budget enters): alone, and as
+    // the second primary next to a 1 MeV e- (with one slot it takes a slot a moving track used)
+    prims.push_back({2, 0.0, {0.2, 0.1, 0.05}, {1, 0, 0}, "k2.e00.p0.d0"});
+    {
+        PrimaryCase pr{1, 1.0, {0.2, 0.1, 0.05}, {1, 0, 0}, "k1.e1.p0.d0+k2.e00"};
+        pr.kind2 = 2;
+        pr.energy2 = 0.0;
+        pr.pos2 = {0.3, -0.2, 0.1};
+        pr.dir2 = {0, 1, 0};
+        prims.push_back(pr);
+    }
+    // Primaries exactly AT the ends of the scripted tables ([1e-3, 1e4] MeV; value == front /
+    // value == back of the energy grids): 1e4 MeV gamma / e- / e+, and a 1e-3 MeV gamma
+    // (gammas have no tracking cut)
+    for (int k = 0; k < 3; ++k)
+        prims.push_back({k, 1e4, {0.2, 0.1, 0.05}, {1, 0, 0}, fmt("k%d.emax.p0.d0", k)});
+    prims.push_back({0, 1e-3, {0.2, 0.1, 0.05}, {1, 0, 0}, "k0.emin.p0.d0"});
     {
         // Starved secondary stack WITH multiple scattering, two slots, and an e+ that stops
         // while another track allocates in the same step: the annihilation at rest fails and is
@@ -90,6 +110,16 @@ int main(int argc, char** argv)
             prims.push_back(ep);
         }
     }
+    // Non-zero primary times (dyadic, native units: 2^-31 s ~ 0.47 ns, 3 * 2^-32 s ~ 0.70 ns) on
+    // the dyadic, table-end, at-rest-at-birth and every two-primary root (different times for
+    // the two primaries): a birth time taken from the slot / from 0 is then not accidentally right
+    for (auto& p : prims)
+        if (p.kind2 >= 0 || p.id.find(".q") != std::string::npos
+            || p.id.find(".e00") != std::string::npos || p.id.find(".em") != std::string::npos)
+        {
+            p.time = std::ldexp(1.0, -31);
+            p.time2 = std::ldexp(3.0, -32);
+        }
     if (rng_part)
     {
         // forced random words: the interaction outcomes stay at their defaults; a thinner
@@ -200,7 +230,7 @@ int main(int argc, char** argv)
                                 fmt("event still has tracks after %u Stepper calls", body_result->calls));
                     return true;
                 }
-                Verdict v = steps_part ? check_steps(*P, P->recorder->steps, P->probe_log.get(), R)
+                Verdict v = steps_part ? check_steps(*P, P->recorder->steps, P->probe_log.get(), R, &pc)
                                        : check_energy(*P, pc, P->recorder->steps);
                 if (v)
                     R.violation(v.sig, cid, cc.id + " " + pc.id + ": " + v.msg);
